@@ -11,7 +11,9 @@ ORACLE = {"05": sc.oracle_C05, "06": sc.oracle_C06_full, "07": sc.oracle_C07}["0
 def run(ck):
     sc.run_property(ck, ORACLE, MODES)
     ck.run_fixed({"waiting_component_gets_the_async_factorys_product": "C06:wait-failed",
-                  "nested_tree_publications_release_waiters": "C06:wait-failed"})
+                  "nested_tree_publications_release_waiters": "C06:wait-failed",
+                  "partly_shadowed_factory_releases_its_waiter": "C06:stuck-although-published",
+                  "factories_waiting_on_each_other_complete": "C06:wait-failed"})
 
 
 def replay(ck, obj):
